@@ -32,7 +32,9 @@ def _task(args):
     """one partition of a universe: returns dict(evals, sigs, failures, skipped, samples)"""
     check_spec, kind, part, k, cfgs, timeout_s, opts = args
     check = _resolve(check_spec)
-    signal.signal(signal.SIGALRM, _alarm)
+    # CPU-time timer (ITIMER_VIRTUAL): a document is judged by the processor time it consumes, so verdicts do not
+    # flip when all cores are busy
+    signal.signal(signal.SIGVTALRM, _alarm)
     if kind == "lines":
         first = U.V[part]
         def gen():
@@ -74,7 +76,7 @@ def _task(args):
     for doc in gen():
         for cfg in cfgs:
             evals += 1
-            signal.setitimer(signal.ITIMER_REAL, timeout_s)
+            signal.setitimer(signal.ITIMER_VIRTUAL, timeout_s)
             try:
                 res = check(state, cfg, doc)
             except DocTimeout:
@@ -89,7 +91,7 @@ def _task(args):
                 else:
                     res = {"skip": True}
             finally:
-                signal.setitimer(signal.ITIMER_REAL, 0)
+                signal.setitimer(signal.ITIMER_VIRTUAL, 0)
             if not res:
                 continue
             if res.get("skip"):
